@@ -239,13 +239,13 @@ def mergeSelect (s : State) (f : File) (now : Nat) : Outcome (List Rec) :=
         | .panic => .panic
   go f.recs []
 
-/-- `reWriteData`: a write transaction (id `txid`) into a fresh file `MaxFileID+1` whose `fileID`
-field is left 0 (so the hints created by this commit carry file id 0). -/
+/-- `reWriteData`: a write transaction (id `txid`) into a fresh file `MaxFileID+1`, which becomes the
+active file (hints created by this commit carry its id). -/
 def rewrite (s : State) (recs : List Rec) (txid : Nat) : State × Outcome Unit :=
   if recs.isEmpty then (s, .ok ())
   else
     let nf := s.activeFid + 1
-    let s0 := { s with activeFid := nf, hintFid := 0, writeOff := 0, actualSize := 0, files := fileEnsure s.files nf, activeUnlinked := false }
+    let s0 := { s with activeFid := nf, hintFid := nf, writeOff := 0, actualSize := 0, files := fileEnsure s.files nf, activeUnlinked := false }
     -- `tx.Commit()`'s result is discarded by reWriteData
     let (s1, o) := commit s0 (recs.map fun r => { r with txid := txid, status := 0 })
     (s1, if o.isPanic then .panic else .ok ())
